@@ -95,15 +95,21 @@ def concurrent_send():
         log = []
         c = IO.EByteNmea2000Gateway('h', 1)
         c.writer = FakeWriter(log); c._state = State.CONNECTED
-        await asyncio.gather(c.send(fast_message(1)), c.send(fast_message(2)))
-        srcs = [p[4] for p in log]           # source address is the low byte of the identifier
-        runs = [s for i, s in enumerate(srcs) if i == 0 or srcs[i - 1] != s]
+        ok = True; srcs_all = []
+        for combo in ((fast_message(1), fast_message(2)), (fast_message(1), heading(2)), (heading(1), fast_message(2)), (fast_message(1), heading(2), fast_message(3), heading(4))):
+            del log[:]
+            await asyncio.gather(*[c.send(m) for m in combo])
+            srcs = [p[4] for p in log]           # source address is the low byte of the identifier
+            runs = [s for i, s in enumerate(srcs) if i == 0 or srcs[i - 1] != s]
+            srcs_all.append(srcs)
+            ok = ok and len(runs) == len(combo)
         await c.close()
-        print('RESULT ' + json.dumps({'wire_sources': srcs, 'contiguous': len(runs) <= 2}))
+        srcs = srcs_all
+        print('RESULT ' + json.dumps({'wire_sources': srcs, 'contiguous': ok}))
     asyncio.run(main())
     ''')
     if r.get('contiguous') is False:
-        return {'scenario': 'two concurrent send() of multi-frame messages, drain() yields', 'observed': f"frames on the wire by source: {r['wire_sources']}", 'expected': 'the frames of each message contiguous'}
+        return {'scenario': 'concurrent send() of multi-frame and single-frame messages (four combinations), drain() yields', 'observed': f"frames on the wire by source: {r['wire_sources']}", 'expected': 'the frames of each message contiguous'}
     return None if 'contiguous' in r else {'scenario': 'concurrent send', 'observed': r}
 
 
@@ -344,14 +350,102 @@ def delivery_order():
     return None
 
 
+def delivery_all_clients():
+    r = run_script('''
+    from nmea2000.decoder import NMEA2000Decoder
+    def usb_fix(pk):
+        pk = bytearray(pk); pk[19] = sum(pk[2:19]) & 0xFF; return bytes(pk)
+    def sig(m):
+        return [m.PGN, m.source, m.destination, [[f.id, str(f.value)] for f in m.fields]]
+    async def drive(kind, packets, expected, chunk):
+        cls = {'ebyte': IO.EByteNmea2000Gateway, 'actisense': IO.ActisenseNmea2000Gateway, 'yacht': IO.YachtDevicesNmea2000Gateway, 'usb': IO.WaveShareNmea2000Gateway}[kind]
+        c = cls('/dev/null') if kind == 'usb' else cls('h', 1)
+        got = []
+        async def rc(m): got.append(sig(m))
+        c.set_receive_callback(rc)
+        stream = b''.join(packets)
+        c.reader = FakeReader([stream[i:i + chunk] for i in range(0, len(stream), chunk)], eof=False); c._state = State.CONNECTED
+        if kind == 'usb': c._buffer = bytearray()
+        escaped = []
+        async def pump():
+            while True:
+                try:
+                    await c._receive_impl()
+                except asyncio.CancelledError:
+                    raise
+                except Exception as e:
+                    escaped.append(type(e).__name__); return
+        t = asyncio.create_task(pump())
+        for _ in range(200):
+            await asyncio.sleep(0.005)
+            if len(got) >= len(expected) or escaped: break
+        await asyncio.sleep(0.05); t.cancel(); await c.close()
+        if got != expected or escaped:
+            return {'client': kind, 'read_size': chunk, 'stream': [p.hex() for p in packets], 'delivered': [g[:2] for g in got], 'expected': [e[:2] for e in expected], 'escaped_exception': escaped}
+        return None
+    async def main():
+        enc = IO.NMEA2000Encoder()
+        bad = None
+        # --- EByte: 13-byte packets, one of an unknown PGN and one whose field decoder rejects it
+        pk = [enc.encode_ebyte(heading(s))[0] for s in (11, 12, 13, 14)]
+        unknown = bytes([0x88, 0x1D, 0xAB, 0xCD, 0x01]) + bytes(8)
+        stream = [pk[0], unknown, pk[1], pk[2], unknown, pk[3]]
+        ref = NMEA2000Decoder(); exp = []
+        for p in stream:
+            try:
+                m = ref.decode_tcp(p)
+            except Exception: m = None
+            if m is not None: exp.append(sig(m))
+        for chunk in (1, 5, 13, 50):
+            bad = bad or await drive('ebyte', stream, exp, chunk)
+        # --- text clients: valid lines, an empty line, ASCII garbage and line noise with bytes >= 0x80
+        noise = [bytes([0xff, 0xfe, 0x80, 0x9c]) + b' noise' + bytes([13, 10]), b'garbage' + bytes([13, 10]), bytes([13, 10]), bytes([0xc3, 0x28, 13, 10])]
+        acti = [b'A000057.055 09FF7 0FF00 3F9FDCFFFFFFFFFF' + bytes([13, 10]), b'A000057.063 09FF7 1FF1A 3F9F24000000FFFFFFFFEFFFFFFF009AFFFFFFADFFFFFF050000000000' + bytes([13, 10]),
+                b'A000057.155 09FF7 0FF00 3F9FDCFFFFFFFFFF' + bytes([13, 10])]
+        yd = [('00:01:54.430 R 15F11910 0%d 00 00 E5 0B 1D FF FF' % i).encode() + bytes([13, 10]) for i in range(3)]
+        for kind, lines, fn in (('actisense', acti, 'decode_actisense_string'), ('yacht', yd, 'decode_yacht_devices_string')):
+            stream = [lines[0], noise[0], lines[1], noise[1], noise[2], noise[3], lines[2]]
+            ref = NMEA2000Decoder(); exp = []
+            for p in stream:
+                try:
+                    m = getattr(ref, fn)(p.decode('latin-1').strip())
+                except Exception: m = None
+                if m is not None: exp.append(sig(m))
+            for chunk in (1, 7, 64, 500):
+                bad = bad or await drive(kind, stream, exp, chunk)
+        # --- Waveshare: 20-byte packets; payloads / identifiers that contain AA 55; marker-free noise; corrupted packets
+        base = [enc.encode_usb(heading(s))[0] for s in (11, 12, 13, 14, 15)]
+        inner = bytearray(base[1]); inner[11] = 0xAA; inner[12] = 0x55; inner = usb_fix(inner)        # data bytes AA 55 (a heading of 0x55AA)
+        inner2 = bytearray(base[2]); inner2[15] = 0xAA; inner2[16] = 0x55; inner2 = usb_fix(inner2)       # variation bytes AA 55
+        flip18 = bytearray(base[3]); flip18[18] ^= 0x40; flip18 = bytes(flip18)                       # reserved byte damaged, checksum not updated
+        flipd = bytearray(base[3]); flipd[12] ^= 0x01; flipd = bytes(flipd)                          # data bit flip, checksum not updated
+        quiet = bytes([0x00, 0x11, 0x7F, 0x55, 0x33])
+        stream = [base[0], quiet, inner, inner2, quiet * 7, flip18, quiet, flipd, quiet, base[3], base[4]]
+        ref = NMEA2000Decoder(); exp = []
+        for p in (base[0], inner, inner2, base[3], base[4]):
+            m = ref.decode_usb(p)
+            if m is not None: exp.append(sig(m))
+        for chunk in (1, 3, 7, 20, 33, 100):
+            bad = bad or await drive('usb', stream, exp, chunk)
+        print('RESULT ' + json.dumps({'bad': bad}))
+    asyncio.run(main())
+    ''', timeout=90)
+    if r.get('bad'):
+        b = r['bad']
+        return {'scenario': 'packets with undecodable packets / line noise / marker-free noise / damaged packets in between, several read sizes', 'observed': b,
+                'expected': 'exactly the messages a reference decoder returns for the valid packets, once each, in order; no exception escapes the receive step'}
+    return None if 'bad' in r else {'scenario': 'delivery over all clients', 'observed': r}
+
+
 BATTERY = {
     'C19': {'concurrent-send': [concurrent_send], 'unsendable': [unsendable], None: [concurrent_send, unsendable]},
     'C14': {'close-during-connect': [close_during_connect], 'status-trace': [status_trace], 'status-callback-raises': [status_trace],
             'close-during-_receive_loop': [fault_while_closing], 'close-during-send': [fault_while_closing],
             None: [close_during_connect, fault_while_closing, status_trace]},
     'C13': {'eof': [eof_no_stall], None: [eof_no_stall, close_during_connect]},
-    'C12': {None: [delivery_order, serial_split_marker]},
-    'C20': {'bound': [serial_buffer], 'split-marker': [serial_split_marker], None: [serial_buffer, serial_split_marker]},
+    'C12': {None: [delivery_order, delivery_all_clients, serial_split_marker]},
+    'C06': {None: [delivery_all_clients, serial_split_marker]},
+    'C20': {'bound': [serial_buffer], 'split-marker': [serial_split_marker], None: [serial_buffer, serial_split_marker, delivery_all_clients]},
 }
 
 
